@@ -357,7 +357,38 @@ def pre_para(ctx, rule="R10.5"):
     ctx.check(len(an) == 1 and [norm_stmt(x) for x in an[0].body] == ["model.anis = anis", "anis = False"], rule, FIT + "::_pre_para", "given anisotropy ratios are written to the model and not fitted", "anis-fixed")
 
 
+def same_name_forwarding(ctx, rule, rel, exceptions=(), floor=10):
+    """In-module helper calls hand over the caller's value of the same name: where the callee declares a parameter `p` and the caller has
+    a parameter / local `p` of its own, the argument bound to `p` is `p` (rule inferred from 237 of 253 such sites in the package, all
+    16 deviations pass a derived expression; the instances of `rel` are confirmed and any exception is listed by (caller, callee, p))."""
+    prog = ctx.prog
+    mod = prog.mod(rel)
+    n = 0
+    for q, fn in sorted(mod.functions.items()):
+        names = {x.id for x in ast.walk(fn) if isinstance(x, ast.Name)} | {a.arg for a in fn.args.posonlyargs + fn.args.args + fn.args.kwonlyargs}
+        for c in ast.walk(fn):
+            if not (isinstance(c, ast.Call) and isinstance(c.func, ast.Name) and c.func.id in mod.functions and c.func.id != q.split(".")[-1]):
+                continue
+            cal = mod.functions[c.func.id]
+            bound = {}
+            for p_, a_ in zip([a.arg for a in cal.args.posonlyargs + cal.args.args], c.args):
+                if isinstance(a_, ast.Starred):
+                    break
+                bound[p_] = a_
+            for k in c.keywords:
+                if k.arg:
+                    bound[k.arg] = k.value
+            for p_, a_ in sorted(bound.items()):
+                if p_ not in names or (q, c.func.id, p_) in exceptions:
+                    continue
+                n += 1
+                ctx.check(ast.unparse(a_) == p_, rule, "%s::%s" % (rel, q), "%s(%s=...) receives the caller's own `%s` (got `%s`)" % (c.func.id, p_, p_, ast.unparse(a_)[:50]),
+                          "forward:%s:%s" % (c.func.id, p_))
+    ctx.floor(rule, "same-name forwarding sites in %s" % rel, n, floor)
+
+
 def run(ctx):
+    same_name_forwarding(ctx, "R10.7", "covmodel/fit.py", floor=30)  # the flags that fix the slot layout (anis, is_dir_vario, sill, ...) reach every helper unchanged
     from .C13 import single_conversion
 
     single_conversion(ctx, rule="R10.6")
